@@ -44,6 +44,7 @@ def plan(tier, seed):
     for c in range(4):
         shards.append(("sched", c, 4, tier))
     shards.append(("overlap_realloc",))
+    shards.append(("overlap_large",))
     shards.append(("callers",))
     for c in range(4):
         shards.append(("scanpairs", c, 4, tier))
@@ -415,6 +416,54 @@ def _run_overlap_realloc(desc):
     return sh
 
 
+def _run_overlap_large(desc):
+    """two labels sharing 65535, 65536, 65537+ ... pixels (regions of 256 x 256 and more on both frames): the count is exact - it does not
+    wrap at 16 bits - and the same for the linear algorithm, the matrix algorithm and overlaps()"""
+    sf, cI, lin, mat = _mods()
+    import io, contextlib
+    sh = Shard()
+
+    def block(r0, c0, nr, nc, lab):
+        rr, cc = np.meshgrid(np.arange(r0, r0 + nr), np.arange(c0, c0 + nc), indexing="ij")
+        return rr.ravel().astype(np.uint16), cc.ravel().astype(np.uint16), np.full(nr * nc, lab, np.int32)
+
+    def frame(blocks):
+        r = np.concatenate([b[0] for b in blocks]); c = np.concatenate([b[1] for b in blocks]); l = np.concatenate([b[2] for b in blocks])
+        o = np.lexsort((c, r))
+        return r[o], c[o], l[o]
+    # (blocks of frame 1, blocks of frame 2): label 2 of frame 1 is a small square elsewhere, so there is always a second pair / no pair
+    cases = [("255x257 identical", [(0, 0, 255, 257, 1)], [(0, 0, 255, 257, 1)]), ("256x256 identical", [(0, 0, 256, 256, 1)], [(0, 0, 256, 256, 1)]),
+             ("256x257 identical", [(3, 5, 256, 257, 1)], [(3, 5, 256, 257, 2)]), ("280x360 shifted by 2", [(0, 0, 280, 360, 1)], [(2, 2, 280, 360, 2)]),
+             ("512x256 identical", [(0, 0, 512, 256, 2)], [(0, 0, 512, 256, 1)]), ("256x256 inside 300x300", [(10, 10, 256, 256, 1)], [(0, 0, 300, 300, 1)])]
+    for name, b1, b2 in cases:
+        f1 = frame([block(*b) for b in b1] + [block(400, 400, 3, 3, 3)])
+        f2 = frame([block(*b) for b in b2] + [block(401, 401, 3, 3, 3)])
+        k1 = f1[0].astype(np.int64) * 70000 + f1[1]
+        k2 = f2[0].astype(np.int64) * 70000 + f2[1]
+        common, i1, i2 = np.intersect1d(k1, k2, return_indices=True)
+        want = {}
+        for a, b in zip(f1[2][i1].tolist(), f2[2][i2].tolist()):
+            want[(a, b)] = want.get((a, b), 0) + 1
+        case = {"kind": "overlap_large", "regions": name}
+        with contextlib.redirect_stdout(io.StringIO()):
+            ne, rcl = lin(f1[0], f1[1], f1[2], 3, f2[0], f2[1], f2[2], 3)
+            nov, res = mat(f1[0], f1[1], f1[2], 3, f2[0], f2[1], f2[2], 3)
+            fa = sf.sparse_frame(f1[0], f1[1], (600, 600), pixels={"labels": f1[2]}); fa.meta["labels"] = {"nlabel": 3}
+            fb = sf.sparse_frame(f2[0], f2[1], (600, 600), pixels={"labels": f2[2]}); fb.meta["labels"] = {"nlabel": 3}
+            m = sf.overlaps(fa, "labels", fb, "labels").tocoo()
+        got = {} if rcl is None else {(int(x), int(y)): int(z) for x, y, z in rcl}
+        got2 = {(int(x), int(y)): int(z) for x, y, z in res}
+        got3 = {(int(a) + 1, int(b) + 1): int(c) for a, b, c in zip(m.row, m.col, m.data) if c != 0}
+        for key, g in (("overlaps_linear", got), ("overlaps_matrix", got2), ("overlaps", got3)):
+            if g != want:
+                sh.violation("%s:count-of-a-large-shared-region-is-not-exact" % key, case, {"got": sorted(g.items()), "expected": sorted(want.items())})
+        sh.evaluations += 1
+        sh.nontrivial += 1
+        sh.outcomes.add(max(want.values()) >= 65536)
+    sh.sample(case, limit=1)
+    return sh
+
+
 def _run_overlap23(desc):
     _, c, nch = desc
     mods = _mods()
@@ -724,6 +773,8 @@ def run_shard(desc):
         return _run_sched(desc)
     if desc[0] == "overlap_realloc":
         return _run_overlap_realloc(desc)
+    if desc[0] == "overlap_large":
+        return _run_overlap_large(desc)
     if desc[0] == "overlap_tall":
         return _run_overlap_tall(desc)
     return {"round": _run_round, "sort": _run_sort, "edge": _run_edge, "overlap": _run_overlap,
@@ -745,6 +796,8 @@ def replay(case):
     elif case["kind"] == "scanpairs":
         r = _run_scanpairs(("scanpairs", 0, 1, "thorough"))
         sh.violations = [v for v in r.violations if v["case"]["frames"] == case["frames"]]
+    elif case["kind"] == "overlap_large":
+        sh.violations = [v for v in _run_overlap_large(("overlap_large",)).violations if v["case"]["regions"] == case["regions"]]
     elif case["kind"] == "overlap_realloc":
         sh.violations = _run_overlap_realloc(("overlap_realloc",)).violations
     elif case["kind"] == "sched":
